@@ -45,5 +45,5 @@ def sweep_vector(obj, vec, **kwargs):
 
     # Generate the resulting surface or volume
     if obj.pdimension == 1:
-        return construct.construct_surface("u", obj, obj_swept)
+        return construct.construct_surface("u", obj, obj_swept, degree=1)
     return construct.construct_volume("w", obj, obj_swept)
